@@ -382,3 +382,50 @@ func GenCycleWeb(rng *rand.Rand) *Model {
 	m.Types = append(m.Types, ty)
 	return m
 }
+
+// GenNestedOps: operators of one kind nested three to four levels deep, the nested operand in every
+// position (first, middle, last) — shapes in which the identity of operator nodes and the order of
+// construction matter. Leaves are computed relations over one or two user types, so that most
+// intersections are accepted.
+func GenNestedOps(rng *rand.Rand) *Model {
+	m := &Model{Schema: "1.1", Types: []Type{{Name: "user", MetaNil: true}, {Name: "employee", MetaNil: true}}}
+	doc := Type{Name: "doc"}
+	base := []string{"a", "b", "c", "d", "e"}
+	for _, b := range base {
+		rs := []Ref{{Type: "user"}}
+		if rng.Intn(3) == 0 {
+			rs = append(rs, Ref{Type: "employee"})
+		}
+		doc.Rels = append(doc.Rels, Rel{Name: b, Rewrite: This(), Restr: rs})
+	}
+	var tree func(kind string, depth int) *U
+	tree = func(kind string, depth int) *U {
+		if depth == 0 {
+			return CU(base[rng.Intn(len(base))])
+		}
+		k := kind
+		if rng.Intn(6) == 0 { // now and then another kind in between
+			k = []string{"union", "inter"}[rng.Intn(2)]
+		}
+		n := 2 + rng.Intn(2)
+		nested := rng.Intn(n)
+		cs := []*U{}
+		for i := 0; i < n; i++ {
+			if i == nested || rng.Intn(4) == 0 {
+				cs = append(cs, tree(kind, depth-1))
+			} else {
+				cs = append(cs, CU(base[rng.Intn(len(base))]))
+			}
+		}
+		if k == "union" {
+			return Union(cs...)
+		}
+		return Inter(cs...)
+	}
+	for i := 0; i < 1+rng.Intn(3); i++ {
+		kind := []string{"union", "inter"}[rng.Intn(2)]
+		doc.Rels = append(doc.Rels, Rel{Name: "x" + itoa(i), Rewrite: tree(kind, 3+rng.Intn(2))})
+	}
+	m.Types = append(m.Types, doc)
+	return m
+}
